@@ -27,6 +27,11 @@ def run(ctx):
             parts = [(ctx.rng.choice(valcorr.PO), valcorr.cond_expr(ctx.rng))]
         else:
             parts = [(ctx.rng.choice(valcorr.MM), valcorr.cond_expr(ctx.rng)) for _ in range(k)]
+        # every operator of a condition part in a spelling of its own: letter in either case or the symbol
+        import re as _re
+
+        respell = lambda c: _re.sub(r"(?<=[\]\)])(\s*)([UOX])(\s*)(?=[\[\(])", lambda m: m.group(1) + ctx.rng.choice({"U": "Uu∧", "O": "Oo∨", "X": "Xx⊻"}[m.group(2)]) + m.group(3), c)
+        parts = [(i, respell(c)) for i, c in parts]
         tail = ctx.rng.choice(valcorr.MM) if parts[0][0] in valcorr.MM and ctx.rng.random() < 0.2 else None
         if ctx.rng.random() < 0.08:
             parts, tail = [], ctx.rng.choice(valcorr.MM + valcorr.PO)
@@ -55,6 +60,22 @@ def run(ctx):
         except SyntaxError:
             ctx.fail("split|" + key, desc, "parses", "SyntaxError", "oracle: an AHB expression of the documented form parses")
             continue
+        # oracle 1b: every part of the RESOLVED tree is the written part -- for a condition without abbreviations exactly the tree of its text
+        if res[0] == "ok":
+            from ahbicht.expressions.condition_expression_parser import parse_condition_expression_to_tree as _pc
+
+            for idx, (i, c) in enumerate(parts):
+                if "P" in c or "UB" in c:
+                    continue
+                try:
+                    wt = _pc(c)
+                except SyntaxError:
+                    continue
+                sub = res[1].children[idx].children[1] if len(res[1].children) > idx and len(res[1].children[idx].children) == 2 else None
+                if sub != wt:
+                    ctx.fail("resolved-part|" + key, dict(desc, part=c), f"the tree of the written condition {c!r}: {wt}"[:400], f"{sub}"[:400],
+                             "oracle: the parts of the resolved expression are the written parts (their condition expressions parse to the same trees)")
+                    break
         if len(parts) + (1 if tail else 0) > 1:
             n_multi += 1
         # oracle 2: first fulfilled part decides; its own outcome, hints and format result are reported
